@@ -400,6 +400,39 @@ func c21(repo string, out *fg.Out) error {
 		muts = append(muts, mut{d.fn, d.cluster, d.kind, inval})
 	}
 
+	// ---- ApplyCreateToken under log replay: an identical create (same hash + name) must return without
+	// writing (`if existingHash == entry.TokenHash && existingName == entry.Name { return am.invalidateAndReturn(nil) }`
+	// inside `case queryErr == nil:`), and the INSERT must be a plain INSERT (no upsert).
+	acf, ac := fg.FindFunc(files, "AuthManager", "ApplyCreateToken")
+	if ac == nil {
+		return fmt.Errorf("method (*AuthManager).ApplyCreateToken not found")
+	}
+	acExecs := callsOn(ac, "db", "Exec")
+	if len(acExecs) != 1 {
+		return fmt.Errorf("ApplyCreateToken: expected exactly one am.db.Exec call, found %d", len(acExecs))
+	}
+	replayReturn := false
+	ast.Inspect(ac, func(n ast.Node) bool {
+		cc, ok := n.(*ast.CaseClause)
+		if !ok || len(cc.List) != 1 || acf.Text(cc.List[0]) != "queryErr == nil" {
+			return true
+		}
+		for _, st := range cc.Body {
+			is, ok := st.(*ast.IfStmt)
+			if !ok || !mentions(is.Cond, acf, "existingHash == entry.TokenHash") || mentions(is.Cond, acf, "||") {
+				continue
+			}
+			if len(is.Body.List) == 1 {
+				if r, ok := is.Body.List[0].(*ast.ReturnStmt); ok && len(r.Results) == 1 && is.Pos() < acExecs[0] {
+					replayReturn = true
+				}
+			}
+		}
+		return true
+	})
+	acText := strings.ToUpper(acf.Text(ac))
+	createReplayNoop := replayReturn && !strings.Contains(acText, "ON CONFLICT") && !strings.Contains(acText, "OR REPLACE") && !strings.Contains(acText, "UPDATE API_TOKENS")
+
 	b := func(v bool) string {
 		if v {
 			return "true"
@@ -418,6 +451,8 @@ func c21(repo string, out *fg.Out) error {
 	fmt.Fprintf(w, "def hitChecksExpiry : Bool := %s\n", b(hitChecksExpiry))
 	fmt.Fprintf(w, "/-- something reachable from the cache-hit branch takes cacheMu.Lock() or writes am.cache -/\n")
 	fmt.Fprintf(w, "def hitPathWritesCache : Bool := %s\n", b(hitWrites))
+	fmt.Fprintf(w, "/-- ApplyCreateToken: an identical replayed create returns before any write; the INSERT is not an upsert -/\n")
+	fmt.Fprintf(w, "def createReplayNoop : Bool := %s\n", b(createReplayNoop))
 	fmt.Fprintf(w, "/-- (method, cluster-apply, kind, calls InvalidateCache on the success path after its SQL statement) -/\n")
 	fmt.Fprintf(w, "def mutators : List (String × Bool × String × Bool) := [\n")
 	for i, m := range muts {
@@ -434,6 +469,7 @@ func c21(repo string, out *fg.Out) error {
 	out.JSON["gen_field"] = genField
 	out.JSON["hit_checks_expiry"] = hitChecksExpiry
 	out.JSON["hit_path_writes_cache"] = hitWrites
+	out.JSON["create_replay_noop"] = createReplayNoop
 	out.JSON["mutators"] = muts
 	return nil
 }
